@@ -265,7 +265,7 @@ pub fn var_names<T: Vars>(d: &T) -> Vec<String> {
 
 fn exponent() -> impl Strategy<Value = Fl> {
     prop_oneof![
-        3 => prop::sample::select(vec![-2.0, -1.0, -0.5, 0.5, 1.0, 2.0, 3.0]).prop_map(Fl),
+        3 => prop::sample::select(vec![-2.0, -1.0, -0.5, 0.0, 0.5, 1.0, 1.0, 2.0, 2.0, 3.0, 4.0]).prop_map(Fl),
         1 => (-3.0f64..3.0).prop_map(Fl),
     ]
 }
@@ -278,10 +278,20 @@ fn op() -> impl Strategy<Value = Op> {
     prop::sample::select(vec![Op::Add, Op::Sub, Op::Mul, Op::Div])
 }
 
+/// Variable values: mostly moderate, sometimes exact small numbers including zero (x^2 at a
+/// vanishing residual is an everyday case), sometimes spread over twelve orders of magnitude.
+pub fn leaf_value() -> impl Strategy<Value = Fl> {
+    prop_oneof![
+        7 => moderate(),
+        1 => prop::sample::select(vec![0.0, 0.0, 1.0, -1.0, 2.0, 0.5, -0.5]).prop_map(Fl),
+        2 => (any::<bool>(), log_uniform(1e-6, 1e6)).prop_map(|(neg, v)| Fl(if neg { -v.0 } else { v.0 })),
+    ]
+}
+
 pub fn expr(nvars: usize) -> impl Strategy<Value = Expr> {
     let leaf = prop_oneof![
         4 => (0..nvars).prop_map(Expr::Var),
-        1 => moderate().prop_map(Expr::Const),
+        1 => prop_oneof![5 => moderate(), 1 => Just(Fl(0.0))].prop_map(Expr::Const),
     ];
     leaf.prop_recursive(6, 25, 2, |inner| {
         prop_oneof![
@@ -292,7 +302,12 @@ pub fn expr(nvars: usize) -> impl Strategy<Value = Expr> {
             1 => inner.clone().prop_map(|e| Expr::Log(Box::new(e))),
             1 => inner.clone().prop_map(|e| Expr::NormCdf(Box::new(e))),
             1 => inner.clone().prop_map(|e| Expr::InvNormCdf(Box::new(e))),
-            2 => (inner, exponent(), any::<bool>()).prop_map(|(e, p, r)| Expr::Pow(Box::new(e), p, r)),
+            2 => (inner.clone(), exponent(), any::<bool>()).prop_map(|(e, p, r)| Expr::Pow(Box::new(e), p, r)),
+            // exact zeros at intermediate nodes: e - e, and powers of them
+            1 => (inner.clone(), form()).prop_map(|(e, f)| Expr::Bin(Op::Sub, f, Box::new(e.clone()), Box::new(e))),
+            1 => (inner, prop::sample::select(vec![0.0, 1.0, 2.0, 3.0]), any::<bool>(), form()).prop_map(|(e, p, r, f)| {
+                Expr::Pow(Box::new(Expr::Bin(Op::Sub, f, Box::new(e.clone()), Box::new(e))), Fl(p), r)
+            }),
         ]
     })
 }
@@ -309,7 +324,7 @@ pub fn program() -> impl Strategy<Value = Program> {
     // no flat-map (it would defeat shrinking): variables are drawn for the maximum count and
     // the expression's variable indices are folded onto the actual count
     (
-        proptest::collection::vec(moderate(), 1..=5),
+        proptest::collection::vec(leaf_value(), 1..=5),
         proptest::collection::vec(tagging(), 5),
         any::<u8>(),
         expr(5),
